@@ -513,3 +513,53 @@ Theorem lazy_deferred_attr_edge_is_assignment : forall {rx} t fl cfg supplied bu
   assigned_lazy t fl cfg supplied budget regexes find call fuel matches g0 (TEdge a b) k v.
 Proof. intros rx. exact (@lazy_deferred_attr_edge_assigned rx). Qed.
 
+(* non-vacuity: the successful runs of  (module) @m { let x = (node)  attr (x) k = 1  attr (x) k = 1 }  (c09_file2 1) in both
+   modes: the second `attr` statement is an assignment of the run (the _is_assignment theorems apply, with the standard
+   library; the hypotheses are discharged one after the other by computation), so the keeps theorems give k = 1 on node 0
+   of the final graph of THE run *)
+Definition c09_call := stdlib_call c09_oracle c09_tree.
+Definition c09_st2 : stanza :=
+  hd {| st_stmts := []; st_full_stanza_idx := 0; st_full_file_idx := 0; st_start := (0, 0) |} (f_stanzas (c09_file2 1)).
+Example c09_assigned_strict_nonvacuous :
+  assigned_strict c09_tree (c09_file2 1) config0 [[]] None (@nil unit) (fun _ _ => None) c09_call 50 [[[(0, [0])]]] [] (TNode 0) [107] (VInt 1) /\
+  exists s p, run_strict c09_tree (c09_file2 1) config0 [[]] None (@nil unit) (fun _ _ => None) c09_call 50 [[[(0, [0])]]] [] = Ok (s, p) /\
+              target_attr (s_graph s) (TNode 0) [107] = Some (VInt 1).
+Proof.
+  assert (HA : assigned_strict c09_tree (c09_file2 1) config0 [[]] None (@nil unit) (fun _ _ => None) c09_call 50 [[[(0, [0])]]] [] (TNode 0) [107] (VInt 1)).
+  { change 50%nat with (S (S 48)).
+    eapply (strict_top_attr_node_is_assignment c09_tree (c09_file2 1) config0 [[]] None (@nil unit) (fun _ _ => None) c09_call 48 [[[(0, [0])]]] [] _
+              [] [] c09_st2 [] [] [(0,[0])] [] [] _ _ _ _ 0 []
+              [ SLet (VarU [120] (1, 6)) (ECall Lit.node []) (1, 2); SAttrNode (EUnscoped [120] (2, 8)) [Attr [107] (EInt 1)] (2, 2) ] []
+              _ _ (EUnscoped [120] (3, 8)) [] [107] (EInt 1) [] (3,2) 0 _ _ _ _ (VInt 1) _ _ (stdlib_extends c09_oracle c09_tree)).
+    (* one goal after the other: each fixes the states the next one starts from *)
+    { vm_compute; reflexivity. } { vm_compute; reflexivity. } { vm_compute; reflexivity. } { vm_compute; reflexivity. } { vm_compute; reflexivity. }
+    { vm_compute; reflexivity. } { vm_compute; reflexivity. } { vm_compute; reflexivity. } { vm_compute; reflexivity. } { vm_compute; reflexivity. }
+    { vm_compute; reflexivity. } { vm_compute; reflexivity. } { vm_compute; reflexivity. } { vm_compute; reflexivity. } { vm_compute; reflexivity. } }
+  split; [exact HA|].
+  assert (Hr : exists s p, run_strict c09_tree (c09_file2 1) config0 [[]] None (@nil unit) (fun _ _ => None) c09_call 50 [[[(0, [0])]]] [] = Ok (s, p))
+    by (eexists; eexists; vm_compute; reflexivity).
+  destruct Hr as (s & p & Hrun). exists s, p. split; [exact Hrun|].
+  exact (strict_ok_run_keeps_every_assignment c09_tree (c09_file2 1) config0 [[]] None (@nil unit) (fun _ _ => None) c09_call 50%nat [[[(0, [0])]]] []
+           s p (TNode 0) [107] (VInt 1) (Forall_nil _) Hrun HA).
+Qed.
+
+Example c09_assigned_lazy_nonvacuous :
+  assigned_lazy c09_tree (c09_file2 1) config0 [[]] None (@nil unit) (fun _ _ => None) c09_call 50 [(0, [(0, [0])])] [] (TNode 0) [107] (VInt 1) /\
+  exists s p, run_lazy c09_tree (c09_file2 1) config0 [[]] None (@nil unit) (fun _ _ => None) c09_call 50 [(0, [(0, [0])])] [] = Ok (s, p) /\
+              target_attr (l_graph s) (TNode 0) [107] = Some (VInt 1).
+Proof.
+  assert (HA : assigned_lazy c09_tree (c09_file2 1) config0 [[]] None (@nil unit) (fun _ _ => None) c09_call 50 [(0, [(0, [0])])] [] (TNode 0) [107] (VInt 1)).
+  { (* the SECOND deferred attribute statement *)
+    eapply (lazy_deferred_attr_node_is_assignment c09_tree (c09_file2 1) config0 [[]] None (@nil unit) (fun _ _ => None) c09_call 50%nat [(0, [(0, [0])])] [] _
+              _ _ _ _ [LSAttrNode (LVar 0) [([107], LValue (VInt 1))] {| sc_stmt := (2, 2); sc_stanza := (0, 0); sc_node := 0 |}] [] _ _
+              (LVar 0) [] [107] (LValue (VInt 1)) [] {| sc_stmt := (3, 2); sc_stanza := (0, 0); sc_node := 0 |} 0 _ _ _ _ (VInt 1) _ _
+              (stdlib_extends_sorted c09_oracle c09_tree)).
+    { vm_compute; reflexivity. } { vm_compute; reflexivity. } { vm_compute; reflexivity. } { vm_compute; reflexivity. } { vm_compute; reflexivity. }
+    { vm_compute; reflexivity. } { vm_compute; reflexivity. } { vm_compute; reflexivity. } { vm_compute; reflexivity. } }
+  split; [exact HA|].
+  assert (Hr : exists s p, run_lazy c09_tree (c09_file2 1) config0 [[]] None (@nil unit) (fun _ _ => None) c09_call 50 [(0, [(0, [0])])] [] = Ok (s, p))
+    by (eexists; eexists; vm_compute; reflexivity).
+  destruct Hr as (s & p & Hrun). exists s, p. split; [exact Hrun|].
+  exact (lazy_ok_run_keeps_every_assignment c09_tree (c09_file2 1) config0 [[]] None (@nil unit) (fun _ _ => None) c09_call 50%nat [(0, [(0, [0])])] []
+           s p (TNode 0) [107] (VInt 1) (Forall_nil _) Hrun HA).
+Qed.
